@@ -103,6 +103,7 @@ var subcommands = map[string]func(common){
 	"tbl-signature": func(c common) { table(c, tbldrv.SignatureCase) },
 	"tbl-assertion": func(c common) { table(c, tbldrv.AssertionCase) },
 	"tbl-reqobj": func(c common) { table(c, tbldrv.RequestObjectCase) },
+	"tbl-authresp": func(c common) { table(c, tbldrv.AuthResponseCase) },
 }
 
 func table(c common, f func(*tbldrv.Case) tbldrv.M) {
